@@ -85,8 +85,8 @@ impl<R> AesReaderValid<R> {
     pub uninterp spec fn g_reader(&self) -> R;
     pub uninterp spec fn g_mode(&self) -> AesMode;
     pub uninterp spec fn g_password(&self) -> Seq<u8>;
-    // ghost: the authentication code has been read and compared (field `finalized`); ciphertext bytes not yet read (field `data_remaining`)
-    pub uninterp spec fn g_finalized(&self) -> bool;
+    // ghost: the authentication code has been read, compared and found to match (field `authenticated`); ciphertext bytes not yet read (field `data_remaining`)
+    pub uninterp spec fn g_authenticated(&self) -> bool;
     pub uninterp spec fn g_remaining(&self) -> u64;
     #[verifier::external_body] pub fn into_inner(self) -> (r: R) ensures r == self.g_reader() { unimplemented!() }
 }
@@ -97,9 +97,9 @@ impl<R: Read> Read for AesReaderValid<R> {
     // end-of-file (Ok(0) to a non-empty buffer) is reported only after the authentication code has been checked
     open spec fn g_read_rel(&self, after: &Self, buf_len: int, out: Seq<u8>, r: io::Result<usize>) -> bool {
         &&& after.g_mode() == self.g_mode() && after.g_password() == self.g_password()
-        &&& (self.g_finalized() ==> after.g_finalized())
+        &&& (self.g_authenticated() ==> after.g_authenticated())
         &&& (r matches Ok(n) ==> n <= self.g_remaining() && after.g_remaining() == self.g_remaining() - n
-                && (n == 0 && buf_len > 0 ==> after.g_finalized())
+                && (n == 0 && buf_len > 0 ==> after.g_authenticated())
                 && (self.g_remaining() > 0 && buf_len > 0 ==> n > 0))
     }
     #[verifier::external_body] fn read(&mut self, buf: &mut [u8]) -> (r: io::Result<usize>) { unimplemented!() }
